@@ -6,6 +6,9 @@ import numpy as np
 from vf.rtc.runner import Acc
 
 
+def _inhalf_(u): return u - np.round(u)
+
+
 def build(e):
     from onsager import OnsagerCalc
     c, chem = e['crys'], e['chem']
@@ -235,7 +238,45 @@ def w_interstitial(arg):
             want = np.einsum('i,iab,icd->abcd', rho, sd, sd) - np.einsum('ab,cd->abcd', avgP, avgP)
             acc.check(np.abs(tot - want).max() <= 1e-9 * max(np.abs(want).max(), 1e-12) + 1e-13, 'loss-tensors-sum-to-the-equilibrium-dipole-fluctuation',
                       '%s: %.2e' % (tag, np.abs(tot - want).max() / max(np.abs(want).max(), 1e-300)), sig=(t, 'sum'))
+    if which == 'C04' and d.NV > 0:
+        # clause (d): sites displaced inside the cell along a symmetry-invariant vector field (so the space group, the Wyckoff sets and
+        # the jump topology are unchanged) with the same rates: the long-time diffusivity only knows lattice translations
+        from onsager import crystal as _cr, OnsagerCalc as _oc
+        chem = d.chem
+        jl_latt = c.jumpnetwork2lattice(chem, d.jumpnetwork)
+        for a in range(min(d.NV, 3)):
+            V = np.array(d.VectorBasis[a]); V = V / np.abs(V).max()
+            eps = 0.02 * min(np.linalg.norm(c.lattice, axis=0))
+            newb = [[np.array(u) for u in b] for b in c.basis]
+            for i in range(d.N): newb[chem][i] = newb[chem][i] + eps * (c.invlatt @ V[i])
+            try:
+                c2 = _cr.Crystal(c.lattice, newb, list(c.chemistry), noreduce=True)
+                shift = c2.basis[chem][0] - newb[chem][0]
+                same_order = all(np.allclose(_inhalf_(c2.basis[cc][i] - newb[cc][i] - shift), 0, atol=1e-9) for cc in range(len(newb)) for i in range(len(newb[cc])))
+                if not (same_order and len(c2.G) == len(c.G)): continue
+                jn2 = [[((i, j), c2.lattice @ (R + c2.basis[chem][j] - c2.basis[chem][i])) for (i, j), R in jl] for jl in jl_latt]
+                d2 = _oc.Interstitial(c2, chem, d.sitelist, jn2)
+                pre, be, preT, beT = thermo(d, rng)
+                D1, D2 = d.diffusivity(pre, be, preT, beT), d2.diffusivity(pre, be, preT, beT)
+                dev = np.abs(D1 - D2).max() / np.abs(D1).max()
+                acc.check(dev <= 1e-9, 'invariant-under-symmetry-preserving-site-displacement', 'sites moved by %.3f along invariant field %d: relative change of D %.2e' % (eps, a, dev), sig=('disp', a))
+            except Exception as ex:
+                acc.check(False, 'invariant-under-symmetry-preserving-site-displacement', 'field %d: %s: %s' % (a, type(ex).__name__, str(ex)[:200]), sig=('disp-exc', a))
     if which == 'C02':
+        # a jump network that was not produced by Crystal.jumpnetwork in this session (recomputed from lattice vectors, read back from
+        # text): every dx carries independent roundoff, so a jump and its reverse are opposite only to ~1e-16
+        from onsager import OnsagerCalc as _oc
+        rngn = np.random.default_rng(seed * 977 + idx)
+        jl_latt = c.jumpnetwork2lattice(d.chem, d.jumpnetwork)
+        jn_re = [[((i, j), c.lattice @ (R + c.basis[d.chem][j] - c.basis[d.chem][i])) for (i, j), R in jl] for jl in jl_latt]
+        jn_noise = [[((i, j), dx * (1 + 2e-16 * rngn.integers(-2, 3, size=len(dx)))) for (i, j), dx in jl] for jl in d.jumpnetwork]
+        for nm_, jn_ in (('recomputed-from-lattice-vectors', jn_re), ('last-bit-noise', jn_noise)):
+            dn = _oc.Interstitial(c, d.chem, d.sitelist, jn_)
+            for rep_ in range(3):
+                pre, be, preT, beT = thermo(d, rng)
+                Dn_ = dn.diffusivity(pre, be, preT, beT); Dsn = D_spec(dn, pre, be, preT, beT); scn = np.abs(Dsn).max()
+                acc.check(np.abs(Dn_ - Dsn).max() <= 1e-9 * scn, 'diffusivity-equals-exact-long-time-diffusivity(network with roundoff-level noise)',
+                          '%s: |D-Dspec|/|D| = %.2e (NV=%d, solver %s)' % (nm_, np.abs(Dn_ - Dsn).max() / scn, dn.NV, 'solve' if dn.omega_invertible else 'pinv'), sig=('noise', nm_, rep_))
         # the result is a function of (crystal, network, data): calculators built later on the SAME Crystal object (whatever the
         # crystal has cached or handed out in between) must give the same exact diffusivity
         pre, be, preT, beT = thermo(d, rng)
